@@ -13,7 +13,7 @@ from .evalrun import EvalInterp, construct
 from .resultrun import ResultInterp, Tagged, metric_objs
 
 INFO = {
-    "explanation": "Writer/reader table agreement decided by interpreting both sides: for each of the 11 serialisable classes an object is built by interpreting its constructor on parameters varied away from their defaults (a truthy set and a set of falsy-but-non-default values such as threshold 0.0, empty metric list, False flags), then to_yaml (-> tagged mapping of _yaml_repr) and from_yaml (cls(**mapping)) are interpreted with stub representer/constructor: (R19.1) loading succeeds (keys are constructor parameters, nothing required is missing), (R19.2) the loaded object has identical settings, and saving it again gives the identical mapping; the tag is '!<ClassName>'; (R19.3) enum classes serialise the member name and load the member of that name (all members of the 7 enum classes); (R19.4) shipped YAML files are composed (not constructed): every tag names a registered class, mapping keys are constructor parameters of that class, required parameters are present, tagged scalars name existing enum members; (R19.5) constructors and from_yaml do not mutate default arguments (a load does not change what later default-constructed objects contain). Further: R19.6 (YAML object state at load and dump, by abstract run), R19.7 (file names of named configurations: append-only, injective).",
+    "explanation": "Writer/reader table agreement decided by interpreting both sides: for each of the 11 serialisable classes an object is built by interpreting its constructor on parameters varied away from their defaults (a truthy set and a set of falsy-but-non-default values such as threshold 0.0, empty metric list, False flags), then to_yaml (-> tagged mapping of _yaml_repr) and from_yaml (cls(**mapping)) are interpreted with stub representer/constructor: (R19.1) loading succeeds (keys are constructor parameters, nothing required is missing), (R19.2) the loaded object has identical settings, and saving it again gives the identical mapping; the tag is '!<ClassName>'; (R19.3) enum classes serialise the member name and load the member of that name (all members of the 7 enum classes); (R19.4) shipped YAML files are composed (not constructed): every tag names a registered class, mapping keys are constructor parameters of that class, required parameters are present, tagged scalars name existing enum members; (R19.5) constructors and from_yaml do not mutate default arguments (a load does not change what later default-constructed objects contain). R19.8: no stored sequence setting is ordered by iterating a set (found and repaired: LabelGroup kept list(set(labels))); the round trips also run on label sets with colliding hashes ([7, 15]). Further: R19.6 (YAML object state at load and dump, by abstract run), R19.7 (file names of named configurations: append-only, injective).",
     "trusted_base": ["ruamel.yaml represents/constructs tagged mappings and scalars faithfully and recursively", "Python semantics of the modelled AST subset"],
     "assumptions": ["nested configurable objects round-trip by their own class's rule (compositional)"],
     "not_decided": ["ruamel's own behaviour", "identical results on every input follows from identical settings, not observed"],
@@ -142,8 +142,10 @@ def param_sets(prog):
         {"default_result": R("ONE"), "no_instances_result": R("NAN"), "empty_prediction_result": R("ZERO"), "empty_reference_result": R("INF"), "normal": None},
         {"default_result": None, "no_instances_result": R("NONE"), "empty_prediction_result": R("ONE"), "empty_reference_result": R("ZERO"), "normal": R("NAN")},
     ]
-    sets["utils.label_group:LabelGroup"] = [{"value_labels": [3, 1, 2], "single_instance": False}, {"value_labels": 7, "single_instance": True}]
-    sets["utils.label_group:LabelMergeGroup"] = [{"value_labels": [4, 5], "single_instance": False}, {"value_labels": [9], "single_instance": True}]
+    # [7, 15] / [16, 8]: labels whose hashes collide in a small set - the iteration order of a set of
+    # them depends on the insertion order, so anything that orders settings by iterating a set shows
+    sets["utils.label_group:LabelGroup"] = [{"value_labels": [3, 1, 2], "single_instance": False}, {"value_labels": 7, "single_instance": True}, {"value_labels": [7, 15], "single_instance": False}]
+    sets["utils.label_group:LabelMergeGroup"] = [{"value_labels": [4, 5], "single_instance": False}, {"value_labels": [9], "single_instance": True}, {"value_labels": [16, 8, 1], "single_instance": False}]
     sets["utils.label_group:_LabelGroupAny"] = [{}]
     sets["utils.segmentation_class:_NoSegmentationClassGroups"] = [{}]
 
@@ -169,8 +171,10 @@ def param_sets(prog):
             "global_metrics": [by["IOU"], by["RVD"]],
             "decision_metric": by["IOU"],
             "decision_threshold": 0.6,
+            # parameters of the same type take pairwise different values in at least one set, so that
+            # two of them exchanged on the way (positional construction, key tables) are told apart
             "save_group_times": True,
-            "log_times": True,
+            "log_times": False,
             "verbose": False,
         },
         {
@@ -184,10 +188,13 @@ def param_sets(prog):
             "decision_metric": by["ASSD"],
             "decision_threshold": 0.0,
             "save_group_times": False,
-            "log_times": False,
-            "verbose": True,
+            "log_times": True,
+            "verbose": False,
         },
     ]
+    third = dict(sets["panoptica_evaluator:Panoptica_Evaluator"][1])
+    third.update({"save_group_times": False, "log_times": False, "verbose": True, "instance_metrics": [by["DSC"], by["IOU"]], "global_metrics": [by["DSC"]]})
+    sets["panoptica_evaluator:Panoptica_Evaluator"].append(third)
     return sets, ms
 
 
@@ -503,7 +510,47 @@ def check_config_names(ctx: Ctx):
     ctx.decide("R19.7", f, f.node, f"{f.qual}:file-names", "the file of a named configuration is <name> with '.yaml' appended if missing; distinct names give distinct files", not bad and not coll, {"unexpected": bad, "collisions": coll[:3]})
 
 
+def check_set_order(ctx: Ctx):
+    """R19.8: a setting a constructor stores must not get its order from iterating a set.  The
+    iteration order of a set is not a function of its elements (colliding hashes are placed by
+    insertion order), so `list(set(x))` kept as a setting makes save -> load -> save unstable.
+    Accepted: sorted(set(x)), order-free uses (len, membership, set algebra)."""
+    prog = ctx.prog
+    n = 0
+    for c in sorted(serialisable_classes(prog), key=lambda c: c.qual):
+        for m in c.methods.values():
+            if m.name not in ("__init__", "_yaml_repr"):
+                continue
+            n += 1
+
+            def is_set_expr(e):
+                if isinstance(e, (ast.Set, ast.SetComp)):
+                    return True
+                if isinstance(e, ast.Call) and isinstance(e.func, ast.Name) and e.func.id in ("set", "frozenset"):
+                    return True
+                if isinstance(e, ast.Name):
+                    from .common import single_def
+
+                    d = single_def(m, e.id)
+                    return d is not None and d is not e and is_set_expr(d)
+                return False
+
+            for node in walk_no_nested(m.node):
+                ordered = None
+                if isinstance(node, ast.Call) and isinstance(node.func, ast.Name) and node.func.id in ("list", "tuple") and len(node.args) == 1 and is_set_expr(node.args[0]):
+                    ordered = node
+                elif isinstance(node, ast.ListComp) and len(node.generators) == 1 and is_set_expr(node.generators[0].iter):
+                    ordered = node
+                if ordered is not None:
+                    ctx.violated("R19.8", m, ordered, f"{m.qual}:{norm(ordered)[:60]}", "a stored setting takes its order from iterating a set: the order depends on how the set was built, so the saved file is not reproduced by the loaded object", {"expression": norm(ordered)[:100]})
+    if n < 8:
+        ctx.undecided("R19.8.floor", None, None, "floor:R19.8", f"{n} constructors / _yaml_repr of serialisable classes inspected, confirmed floor is 8")
+    else:
+        ctx.ok("R19.8", None, None, "serialisable-classes:set-order", f"{n} constructors / _yaml_repr methods inspected: no sequence setting is ordered by set iteration", None, nontrivial=False)
+
+
 def check(ctx: Ctx):
+    check_set_order(ctx)
     check_roundtrip(ctx)
     check_enums(ctx)
     check_shipped(ctx)
@@ -528,6 +575,7 @@ _H = "panoptica/utils/edge_case_handling.py"
 _L = "panoptica/utils/label_group.py"
 
 VARIANTS = [
+    Variant("C19-m-set-order", "R19", "mutant", [("panoptica/utils/label_group.py", "        value_labels = sorted(set(value_labels))\n", "        value_labels = list(set(value_labels))\n")]),
     Variant("C19-m-loader-yaml11", "R19.6", "mutant", [(_C, "    yaml = YAML(typ=\"safe\")\n    _register_helper_classes(yaml)\n    if registered_class is not None:\n        yaml.register_class(registered_class)\n    yaml.default_flow_style = None\n    data = yaml.load(file)", "    yaml = YAML(typ=\"safe\")\n    yaml.version = (1, 1)\n    _register_helper_classes(yaml)\n    if registered_class is not None:\n        yaml.register_class(registered_class)\n    yaml.default_flow_style = None\n    data = yaml.load(file)")], control=True),
     Variant("C19-m-loader-no-helpers", "R19.6", "mutant", [(_C, "    yaml = YAML(typ=\"safe\")\n    _register_helper_classes(yaml)\n    if registered_class is not None:\n        yaml.register_class(registered_class)\n    yaml.default_flow_style = None\n    data = yaml.load(file)", "    yaml = YAML(typ=\"safe\")\n    if registered_class is not None:\n        yaml.register_class(registered_class)\n    yaml.default_flow_style = None\n    data = yaml.load(file)")]),
     Variant("C19-m-name-with-suffix", "R19.7", "mutant", [("panoptica/utils/filepath.py", "    if not name.endswith(\".yaml\"):\n        name += \".yaml\"\n    return directory, name", "    name = str(Path(name).with_suffix(\".yaml\"))\n    return directory, name")]),
